@@ -385,6 +385,117 @@ def check_event_metadata_kept(F, R, inst="event-metadata-kept"):
     return n
 
 
+def check_builder_setters(F, R, adt, inst="builder-setter", skip=r"^(new|default|custom|with_\w+|clone)$", forward_to=None, only=None):
+    """Builder methods of `adt` (inherent, `self` by value -> the same ADT) do what their public name says, decided on their deep path
+    tables (callees opaque):
+      * a setter changes exactly ONE field — the field named like the method (`retries` -> `retries`, `before` -> `before_hook`,
+        `given` -> `steps` through the like-named method of the old value) — to a value built from ALL its parameters (a flag setter
+        without parameters stores `true`), and keeps every other field;
+      * with `forward_to` = {component field: ...}: a method that replaces a component by calling a method ON the old component calls
+        the method of its own name with all its own parameters (`Cucumber::retries(n)` -> `runner.retries(n)`).
+    A setter wired to another field / another method compiles whenever the types agree (`retries` / `max_concurrent_scenarios` are both
+    `Option<usize>`) and no test fails unless it uses exactly that builder."""
+    from . import deep as D
+    info = F.adt(adt)
+    if info is None:
+        raise Unverifiable(f"ADT {adt}")
+    fields = [f["name"] for f in info["variants"][0]["fields"]]
+    n = 0
+    for b in sorted(F.crate_bodies(), key=lambda x: x.name):
+        if (b.impl or {}).get("self_adt") != adt or (b.impl or {}).get("trait") or b.kind not in ("Fn", "AssocFn") or b.arg_count < 1:
+            continue
+        name = re.sub(r"<.*>$", "", b.name).rsplit("::", 1)[-1]
+        if re.search(skip, name) or getattr(b, "vis", "Public") != "Public" or (only and not re.search(only, name)):
+            continue
+        if re.sub(r"<.*", "", b.locals[1].strip()) != adt or re.sub(r"<.*", "", b.locals[0].strip()) != adt:
+            continue
+        rows = D.Deep(F, b, max_paths=50, inline=False).run()
+        if not rows or any(p.cut for p in rows):
+            continue
+        changed = {}
+        bad = None
+        for p in rows:
+            ret = p.ret
+            if ret[0] == "with" and ret[1] == ("arg", 1):
+                for idx, val in ret[2]:
+                    changed.setdefault(idx, []).append(val)
+            elif D.is_variant(ret, adt) and len(ret[3]) == len(fields):
+                for j, val in enumerate(ret[3]):
+                    if val != ("field", ("arg", 1), j):
+                        changed.setdefault(j, []).append(val)
+            elif ret == ("arg", 1):
+                pass
+            else:
+                bad = f"a path returns {D.fmt(b, ret)[:80]}"
+        if bad:
+            continue       # not a plain setter (e.g. consumes self into something computed): out of this rule's scope
+        ftys = [f.get("ty", "") for f in info["variants"][0]["fields"]]
+        changed = {i: v for i, v in changed.items() if not ftys[i].startswith("std::marker::PhantomData")}
+        n += 1
+        params = [("arg", i) for i in range(2, b.arg_count + 1)]
+        ch_names = sorted(fields[i] for i in changed)
+        if not changed:
+            R.violation(f"{inst}/{adt.rsplit('::', 1)[-1]}::{name}", b, f"`{adt.rsplit('::', 1)[-1]}::{name}` returns `self` unchanged: the option it is named after is never stored / forwarded")
+            continue
+        want = [f for f in fields if f == name or f.startswith(name + "_")]
+        key = f"{inst}/{adt.rsplit('::', 1)[-1]}::{name}"
+        if forward_to and len(changed) == 1 and ch_names[0] in forward_to:
+            comp_idx = next(iter(changed))
+            vals = changed[comp_idx]
+            ok, why = True, ""
+            for v in vals:
+                calls = [x for x in D.subterms(v) if x[0] == "call" and any(a == ("field", ("arg", 1), comp_idx) or D.mentions(a, lambda y: y == ("field", ("arg", 1), comp_idx)) for a in x[2])]
+                outer = v if v[0] == "call" else (calls[0] if calls else None)
+                if outer is None:
+                    ok, why = False, f"`{ch_names[0]}` is replaced by {D.fmt(b, v)[:60]}, not by a method call on the old {ch_names[0]}"
+                    break
+                callee = re.sub(r"<[^<>]*(<[^<>]*(<[^<>]*>[^<>]*)*>[^<>]*)*>", "", outer[1]).replace("::::", "::").rsplit("::", 1)[-1]
+                if callee != name:
+                    ok, why = False, f"it calls `{callee}` on the old {ch_names[0]}"
+                    break
+                missing = [D.fmt(b, q) for q in params if not D.mentions(outer, lambda y, q=q: y == q)]
+                if missing:
+                    ok, why = False, f"parameter(s) {missing} are not handed on"
+                    break
+            R.check(ok, key, b, f"forwards to {ch_names[0]}.{name}(..) with all parameters", f"`{adt.rsplit('::', 1)[-1]}::{name}` does not forward to the like-named method of its {ch_names[0]}: {why}")
+            continue
+        if forward_to and set(ch_names) & set(forward_to):
+            continue       # replaces a component wholesale (with_parser ..): covered by the keep-cli rule
+        if not want:
+            # no like-named field (`given` -> `steps.given(..)`): one field is replaced by the like-named method of its old value
+            if len(changed) == 1:
+                ci = next(iter(changed))
+                ok, why = True, ""
+                for v in changed[ci]:
+                    callee = re.sub(r"<[^<>]*(<[^<>]*(<[^<>]*>[^<>]*)*>[^<>]*)*>", "", v[1]).replace("::::", "::").rsplit("::", 1)[-1] if v[0] == "call" else None
+                    old_used = v[0] == "call" and any(D.mentions(a, lambda y: y == ("field", ("arg", 1), ci) or (y[0] == "ref" and y[1] == ("field", ("L", 0, 1), ci))) for a in v[2])
+                    missing = [D.fmt(b, q) for q in params if not D.mentions(v, lambda y, q=q: y == q)]
+                    if callee != name or not old_used or missing:
+                        ok, why = False, f"`{fields[ci]}` becomes {D.fmt(b, v)[:70]}"
+                R.check(ok, key, b, f"`{fields[ci]}` := old {fields[ci]}.{name}(all parameters)", f"`{adt.rsplit('::', 1)[-1]}::{name}` does not delegate to the like-named method of its `{fields[ci]}`: {why}")
+            continue
+        ok = ch_names == want[:1] or (len(want) >= 1 and ch_names == [want[0]])
+        why = f"it changes {ch_names or 'nothing'} (expected exactly `{want[0]}`)"
+        if ok:
+            for v in changed[fields.index(want[0])]:
+                if params:
+                    missing = [D.fmt(b, q) for q in params if not D.mentions(v, lambda y, q=q: y == q)]
+                    if missing:
+                        ok, why = False, f"the stored value {D.fmt(b, v)[:60]} is not built from parameter(s) {missing}"
+                elif v != ("const", True):
+                    ok, why = False, f"a flag setter stores {D.fmt(b, v)[:40]} instead of `true`"
+        R.check(ok, key, b, f"sets `{want[0]}` from its parameters, keeps the rest", f"`{adt.rsplit('::', 1)[-1]}::{name}` does not do what its name says: {why}")
+    return n
+
+
+def check_all_builder_setters(F, R, only=None, floor=1):
+    """check_builder_setters for runner::Basic's setters and Cucumber's forwarding builders (`only`: regex on method names)."""
+    n = check_builder_setters(F, R, "runner::basic::Basic", only=only)
+    n += check_builder_setters(F, R, "cucumber::Cucumber", forward_to={"parser", "runner", "writer"}, only=only)
+    R.floor(floor)
+    return n
+
+
 def check_builders_keep_cli(F, R, inst="builder-keeps-cli"):
     """Every `Cucumber` builder method (self -> Cucumber) hands the CLI options given by `with_cli()` on to the value it returns:
     the `cli` field of the result is `self.cli`, or is set explicitly from a parameter (`with_cli`, `with_default_cli`); it may be
